@@ -331,7 +331,9 @@ pub fn scenario(name: &str, params: &Value) -> Scenario {
             let qos = chz.choose(3) as u8;
             let qos_set = qos != 0 || chz.choose(2) == 1;
             let retain = [None, Some(false), Some(true)][chz.choose(3)];
-            let topic = chz.choose(2) == 1;
+            // topic: absent (refused) / the empty string (legal: together with a Topic Alias it is the
+            // alias-only form; the client is not the judge of whether the alias exists) / a name
+            let topic = chz.choose(3);
             let mask = chz.choose(64);
             let nup = chz.choose(3);
             let payload = match chz.choose(3) {
@@ -342,7 +344,11 @@ pub fn scenario(name: &str, params: &Value) -> Scenario {
             let spec = PublishSpec {
                 qos: if qos_set { Some(qos) } else { None },
                 retain,
-                topic: if topic { Some("a/b".into()) } else { None },
+                topic: match topic {
+                    0 => None,
+                    1 => Some(String::new()),
+                    _ => Some("a/b".into()),
+                },
                 payload,
                 pfi: if mask & 1 != 0 { Some(true) } else { None },
                 topic_alias: if mask & 2 != 0 { Some(7) } else { None },
